@@ -137,6 +137,12 @@ type Interp struct {
 	intrinsicsOff map[string]bool
 	flags    map[string]bool
 	freshCnt map[string]int
+	batch    []pendingOb
+	tail     []pendingOb
+	batchDepth int
+	curHarness bool
+	assumedSet map[*Term]bool
+	trivial  int
 }
 
 type Observe struct {
@@ -191,7 +197,20 @@ func (in *Interp) assume(c *Term) {
 	if c.IsTrue() {
 		return
 	}
+	if in.assumedSet == nil {
+		in.assumedSet = map[*Term]bool{}
+	}
+	if in.assumedSet[c] {
+		return
+	}
+	in.assumedSet[c] = true
 	in.solver.Assert(c)
+}
+
+func (in *Interp) satK(kind string, cs ...*Term) bool {
+	QueryKind = kind
+	defer func() { QueryKind = "" }()
+	return in.sat(cs...)
 }
 
 func (in *Interp) sat(cs ...*Term) bool {
@@ -240,9 +259,88 @@ func (in *Interp) obligation(g *Term, kind, label string, bad *Term) {
 	if bad.IsFalse() || g.IsFalse() {
 		return
 	}
+	// Batching: obligations raised inside a verifBatch(true)..verifBatch(false) bracket, and bounds /
+	// nil checks of the harness' own code, are decided by one query on their disjunction; only if
+	// that is satisfiable are they examined one by one.
+	if in.batchDepth > 0 {
+		in.batch = append(in.batch, pendingOb{g, kind, label, bad, in.curInstr})
+		return
+	}
+	if kind == "panic" && in.curHarness {
+		in.tail = append(in.tail, pendingOb{g, kind, label, bad, in.curInstr})
+		return
+	}
+	in.obligation1(g, kind, label, bad)
+}
+
+type pendingOb struct {
+	g           *Term
+	kind, label string
+	bad         *Term
+	where       string
+}
+
+func (in *Interp) flush(list []pendingOb) {
+	const chunk = 12
+	for len(list) > chunk {
+		in.flush1(list[:chunk])
+		list = list[chunk:]
+	}
+	in.flush1(list)
+}
+
+func (in *Interp) flush1(list []pendingOb) {
+	// obligations whose condition is literally a fact already assumed need no query
+	var rest []pendingOb
+	for _, p := range list {
+		if in.assumedSet[Implies(p.g, Not(p.bad))] {
+			in.obligations++
+			in.discharged++
+			in.trivial++
+			continue
+		}
+		rest = append(rest, p)
+	}
+	list = rest
+	if len(list) == 0 {
+		return
+	}
+	var ds []*Term
+	for _, p := range list {
+		ds = append(ds, And(p.g, p.bad))
+	}
+	if !in.satK("batch", Or(ds...)) {
+		in.obligations += len(list)
+		in.discharged += len(list)
+		for _, p := range list {
+			if len(in.samples) < 12 {
+				in.samples = append(in.samples, p.kind+": "+p.label)
+			}
+			in.assume(Implies(p.g, Not(p.bad)))
+		}
+		return
+	}
+	for _, p := range list {
+		in.curInstr = p.where
+		in.obligation1(p.g, p.kind, p.label, p.bad)
+	}
+}
+
+func (in *Interp) obligation1(g *Term, kind, label string, bad *Term) {
+	if in.assumedSet[Implies(g, Not(bad))] {
+		in.obligations++
+		in.discharged++
+		in.trivial++
+		return
+	}
 	in.obligations++
 	if len(in.samples) < 12 {
 		in.samples = append(in.samples, kind+": "+label)
+	}
+	if !in.satK("oblig-"+kind, g, bad) {
+		in.discharged++
+		in.assume(Implies(g, Not(bad)))
+		return
 	}
 	cands := in.knownFor(kind, label)
 	K := False
@@ -251,19 +349,21 @@ func (in *Interp) obligation(g *Term, kind, label string, bad *Term) {
 			K = Or(K, c)
 		}
 	}
-	failed := false
-	if in.sat(g, bad, Not(K)) {
+	failed := true
+	if K.IsFalse() {
 		in.finding(kind, label)
-		failed = true
-	}
-	for _, k := range cands {
-		c, ok := in.knownCond[k.ID]
-		if !ok {
-			continue
+	} else {
+		if in.sat(g, bad, Not(K)) {
+			in.finding(kind, label)
 		}
-		if in.sat(g, bad, c) {
-			in.findings = append(in.findings, Finding{Kind: kind, Label: label, Known: k.ID, Model: in.solver.Model(in.vars), Where: in.curInstr})
-			failed = true
+		for _, k := range cands {
+			c, ok := in.knownCond[k.ID]
+			if !ok {
+				continue
+			}
+			if in.sat(g, bad, c) {
+				in.findings = append(in.findings, Finding{Kind: kind, Label: label, Known: k.ID, Model: in.solver.Model(in.vars), Where: in.curInstr})
+			}
 		}
 	}
 	if !failed {
@@ -598,7 +698,9 @@ func (a *Act) mayPanic(c *Term, site string) {
 	if c.IsFalse() {
 		return
 	}
+	a.in.curHarness = a.in.isHarnessFn(a.fn)
 	a.in.obligation(a.g, "panic", site+" in "+a.fn.String(), c)
+	a.in.curHarness = false
 	if c.IsTrue() {
 		a.kill()
 	}
@@ -728,6 +830,7 @@ func (in *Interp) callFn(fv FuncV, args []Value, g *Term, st *MState, depth int)
 	pend := map[*ssa.BasicBlock][]incoming{fn.Blocks[0]: {{g: g, st: st, env: env0}}}
 	visits := map[*ssa.BasicBlock]int{}
 	hdr := map[*ssa.BasicBlock]*hdrSnap{}
+	lastHdrG := map[*ssa.BasicBlock]*Term{}
 	var rets []exit
 	for len(pend) > 0 {
 		var b *ssa.BasicBlock
@@ -762,9 +865,10 @@ func (in *Interp) callFn(fv FuncV, args []Value, g *Term, st *MState, depth int)
 		if bg.IsFalse() {
 			continue
 		}
-		if _, isHeader := in.loopsOf[fn][b]; isHeader && visits[b] >= 1 && !bg.IsTrue() && !in.sat(bg) {
+		if _, isHeader := in.loopsOf[fn][b]; isHeader && visits[b] >= 1 && !bg.IsTrue() && bg != lastHdrG[b] && !in.satK("loop", bg) {
 			continue
 		}
+		lastHdrG[b] = bg
 		visits[b]++
 		if body, isHeader := in.loopsOf[fn][b]; isHeader {
 			for y := range body {
@@ -838,6 +942,24 @@ func (in *Interp) callFn(fv FuncV, args []Value, g *Term, st *MState, depth int)
 					if _, ok := r.(deadEnd); ok {
 						return
 					}
+					if u, ok := r.(unsupportedErr); ok && !u.checked {
+						// an unsupported construct on an infeasible path is not a problem
+						g := act.g
+						feasible := true
+						func() {
+							defer func() {
+								if recover() != nil {
+									feasible = true
+								}
+							}()
+							feasible = g.IsTrue() || in.sat(g)
+						}()
+						if !feasible {
+							return
+						}
+						u.checked = true
+						panic(u)
+					}
 					panic(r)
 				}
 			}()
@@ -846,6 +968,7 @@ func (in *Interp) callFn(fv FuncV, args []Value, g *Term, st *MState, depth int)
 					continue
 				}
 				in.curInstr = fn.String() + ": " + instr.String()
+				CurWhere = in.curInstr
 				in.instrs++
 				switch x := instr.(type) {
 				case *ssa.If:
@@ -1412,7 +1535,7 @@ func (a *Act) invoke(fn Value, args []Value) Value {
 		for i := len(t.recv.alts) - 1; i >= 0; i-- {
 			al := t.recv.alts[i]
 			a.g, a.st = And(baseG, al.g), baseSt.clone()
-			if !in.sat(a.g) {
+			if !in.satK("ifacealt", a.g) {
 				continue
 			}
 			var r Value
